@@ -11,6 +11,7 @@ import (
 	"math/rand/v2"
 	"sort"
 	"strings"
+	"sync/atomic"
 	"time"
 )
 
@@ -27,7 +28,6 @@ func pMustJSON(v any) []byte {
 	must(err)
 	return b
 }
-
 
 type pipeCtx struct {
 	c    *Ctx
@@ -201,25 +201,26 @@ func (p *pipeCtx) goPredicates(r *pRun, res *pResult, o pEvalOpts, desc map[stri
 			}
 		}
 	}
-	// C07: a query issued when r's nil ack arrived must see every earlier batch that ended up acked nil
+	// C07: a query issued when id's nil ack arrived must see every non-empty batch whose call returned
+	// before id's call began and that ended up acked nil; and such a batch must not be left unanswered
 	if p.wants("C07") {
 		for id, snap := range r.snapAt {
-			if snap == nil {
+			subj := r.ops[id]
+			if snap == nil || !(subj.Kind == "force" || (subj.Valid && subj.Rows > 0)) {
 				continue
 			}
 			for _, a := range ids {
 				ia := r.ops[a]
-				if a == id || ia.Kind != "batch" || !ia.Valid || ia.Rows == 0 || !r.retAcc[a] {
+				rs, returned := r.retSeq[a]
+				if a == id || ia.Kind != "batch" || ia.Rows == 0 || !r.retAcc[a] || !returned || rs >= r.callSeq[id] {
 					continue
 				}
-				if rs, ok := r.retSeq[a]; ok && rs < r.callSeq[id] && r.ops[id].Kind != "batch" || (r.ops[id].Kind == "batch" && r.ops[id].Valid && r.ops[id].Rows > 0 && ok && rs < r.callSeq[id]) {
-					ga := r.recvd[a]
-					if len(ga) == 1 && ga[0] && !snap[a] {
-						c.violation(o.sig, fmt.Sprintf("run %s: %d answered nil while earlier batch %d (acked nil) was not visible to a query", r.name, id, a), desc)
-					}
-					if len(ga) == 0 && ia.Ch != "nil" && ia.Ch != "abandon" && r.stopRes == nil {
-						c.violation(o.sig, fmt.Sprintf("run %s: %d answered nil while earlier batch %d was never answered", r.name, id, a), desc)
-					}
+				ga := r.recvd[a]
+				if ia.Valid && len(ga) == 1 && ga[0] && !snap[a] {
+					c.violation(o.sig, fmt.Sprintf("run %s: %d answered nil while earlier batch %d (acked nil) was not visible to a query", r.name, id, a), desc)
+				}
+				if len(ga) == 0 && (ia.Ch == "buf" || ia.Ch == "drain") && !r.fcancelled {
+					c.violation(o.sig, fmt.Sprintf("run %s: %d answered nil while earlier batch %d was never answered", r.name, id, a), desc)
 				}
 			}
 		}
@@ -231,7 +232,7 @@ func (p *pipeCtx) goPredicates(r *pRun, res *pResult, o pEvalOpts, desc map[stri
 		}
 	}
 	// C09
-	if p.wants("C09") {
+	if p.wants("C09") && o.kind == "backpressure" {
 		bound := int64(r.spec.ICap + 1 + (r.spec.FCap+2)*r.spec.MaxRows)
 		if r.peakUn > bound {
 			c.violation(o.sig, fmt.Sprintf("run %s: %d accepted-but-unanswered batches, bound %d", r.name, r.peakUn, bound), desc)
@@ -501,7 +502,227 @@ func minInt(a, b int) int {
 	return b
 }
 
-func pFaultEnumeration(p *pipeCtx) {}
-func pBackpressure(p *pipeCtx, i int) {}
-func pLimits(p *pipeCtx, i int)       {}
-func pTimeFlush(p *pipeCtx)           {}
+// ---------------------------------------------------------------- C06: fault enumeration
+
+type pFaultPoint struct {
+	kind string
+	nth  int
+}
+
+// one history: three flushes that write a file each, an invalid batch in between, queries along the way
+func pFaultRun(p *pipeCtx, name string, hasAbort bool, faults []pFaultPoint, shape int) {
+	o := defaultOpts()
+	o.HasAbort = hasAbort
+	o.Partitioned = true
+	r := newPRun(p.c, name, o)
+	for _, f := range faults {
+		r.plan.fail(f.kind, f.nth)
+	}
+	ctx := context.Background()
+	r.start()
+	chs := []string{"buf", "drain", "buf", "drain"}
+	ingest := func(n, nparts, bad int, ch string) {
+		parts, pad := make([]int, n), make([]int, n)
+		for i := range parts {
+			parts[i] = i % nparts
+		}
+		r.ingest(ctx, ch, func(id int) *pBatch { return r.makeBatch(id, parts, pad, bad, true) })
+	}
+	ingest(2, 1, -1, chs[shape%4])
+	r.flush(ctx)
+	r.queryVisible(r.eng)
+	ingest(3, 2, 1, "buf") // unmarshalable row in the middle
+	ingest(3, 2+shape%2, -1, chs[(shape+1)%4])
+	if shape%3 == 0 {
+		ingest(1, 1, -1, "buf") // shares the flush (and the fate) of the previous batch
+	}
+	r.flush(ctx)
+	r.queryVisible(r.eng)
+	ingest(2, 1, -1, chs[(shape+2)%4])
+	r.stopWithDeadline(20 * time.Second)
+	res := r.finish(3*time.Second, true)
+	fs := make([]string, len(faults))
+	for i, f := range faults {
+		fs[i] = fmt.Sprintf("%s#%d", f.kind, f.nth)
+		p.c.dist("fault_kind", f.kind)
+	}
+	p.emit(r, res, pEvalOpts{props: []string{"C06"}, nontrivial: len(faults) > 0, kind: "fault-enum",
+		extra: map[string]any{"faults": fs, "has_abort": hasAbort, "shape": shape}})
+}
+
+func pFaultEnumeration(p *pipeCtx) {
+	// positions: 3 flushes; one partition => 8 Write calls per file (block, filter region, 6 footer writes)
+	var singles []pFaultPoint
+	for i := 0; i < 3; i++ {
+		singles = append(singles, pFaultPoint{"CreateFile", i}, pFaultPoint{"Close", i}, pFaultPoint{"Update", i})
+	}
+	nWrites := 28
+	for i := 0; i < nWrites; i++ {
+		singles = append(singles, pFaultPoint{"Write", i})
+	}
+	n := 0
+	pFaultRun(p, "fault-none", true, nil, 0)
+	for _, f := range singles {
+		if !p.c.thorough() && f.kind == "Write" && f.nth%3 == 2 && f.nth > 9 {
+			continue // quick tier: two of every three later write positions
+		}
+		pFaultRun(p, fmt.Sprintf("fault-%s-%d", f.kind, f.nth), n%4 != 3, []pFaultPoint{f}, n)
+		n++
+	}
+	// cleanup calls only happen after a first failure: pairs
+	var pairs [][]pFaultPoint
+	for _, first := range []pFaultPoint{{"Write", 0}, {"Write", 9}, {"Close", 1}, {"Update", 0}, {"Update", 2}} {
+		for _, second := range []pFaultPoint{{"Abort", 0}, {"Tombstone", 0}} {
+			pairs = append(pairs, []pFaultPoint{first, second})
+		}
+	}
+	pairs = append(pairs, []pFaultPoint{{"Write", 3}, {"Abort", 0}, {"Tombstone", 0}}, []pFaultPoint{{"CreateFile", 0}, {"CreateFile", 1}},
+		[]pFaultPoint{{"Update", 0}, {"Update", 1}}, []pFaultPoint{{"Close", 0}, {"Update", 1}})
+	if p.c.thorough() {
+		for i := 0; i < len(singles); i++ {
+			for j := i + 1; j < len(singles); j += 1 + p.c.intn(3) {
+				pairs = append(pairs, []pFaultPoint{singles[i], singles[j]})
+			}
+		}
+	}
+	for i, pr := range pairs {
+		pFaultRun(p, fmt.Sprintf("fault-pair-%d", i), i%3 != 2, pr, i)
+	}
+}
+
+// ---------------------------------------------------------------- C09: stalled stores
+
+func pBackpressure(p *pipeCtx, idx int) {
+	rng := p.c.rng
+	o := defaultOpts()
+	o.ICap = 1 + rng.IntN(3)
+	o.MaxRows = 1 + rng.IntN(4)
+	o.Partitioned = rng.IntN(2) == 0
+	r := newPRun(p.c, fmt.Sprintf("stall-%d", idx), o)
+	kind := []string{"CreateFile", "Write", "Close", "Update"}[rng.IntN(4)]
+	nth := rng.IntN(2)
+	_, release := r.plan.wedgeAt(kind, nth)
+	r.start()
+	r.measuring.Store(true)
+	nProd := 1 + rng.IntN(8)
+	seeds := make([]uint64, nProd)
+	for i := range seeds {
+		seeds[i] = rng.Uint64()
+	}
+	var timeouts atomic.Int64
+	for pi := 0; pi < nProd; pi++ {
+		prng := rand.New(rand.NewPCG(seeds[pi], 9))
+		r.goProducer(func() {
+			n := 4 + prng.IntN(10)
+			for k := 0; k < n; k++ {
+				ctx, cancel := context.WithTimeout(context.Background(), time.Duration(5+prng.IntN(15))*time.Millisecond)
+				_, err := r.ingest(ctx, "drain", simpleBatch(r, 1))
+				cancel()
+				if err != nil {
+					timeouts.Add(1)
+				}
+			}
+		})
+	}
+	// let the producers run into the stall
+	waitFor(func() bool { return r.hung.Load() == 0 }, 3*time.Second)
+	r.measuring.Store(false)
+	release()
+	r.stopWithDeadline(20 * time.Second)
+	res := r.finish(3*time.Second, true)
+	p.c.dist("stall_kind", kind)
+	p.emit(r, res, pEvalOpts{props: []string{"C09"}, nontrivial: timeouts.Load() > 0, kind: "backpressure",
+		extra: map[string]any{"producers": nProd, "stalled": fmt.Sprintf("%s#%d", kind, nth), "blocked_calls": timeouts.Load(), "peak_unanswered": r.peakUn}})
+}
+
+// ---------------------------------------------------------------- C10: limits and time
+
+func pLimits(p *pipeCtx, idx int) {
+	rng := p.c.rng
+	o := defaultOpts()
+	o.MaxRows = 2 + rng.IntN(8)
+	o.MaxBytes = 80 + rng.IntN(600)
+	o.PartRows = 1 + rng.IntN(5)
+	o.PartBytes = 60 + rng.IntN(300)
+	if rng.IntN(3) == 0 {
+		o.PartRows, o.PartBytes = 1000, 1<<20
+	}
+	if rng.IntN(3) == 0 {
+		o.MaxBytes = 1 << 20
+	}
+	o.Partitioned = rng.IntN(4) != 0
+	nParts := 1 + rng.IntN(5)
+	r := newPRun(p.c, fmt.Sprintf("limits-%d", idx), o)
+	ctx := context.Background()
+	r.start()
+	nBatches := 6 + rng.IntN(14)
+	for b := 0; b < nBatches; b++ {
+		n := 1 + rng.IntN(4)
+		if rng.IntN(6) == 0 {
+			n = 1 + rng.IntN(12) // crosses several limits at once
+		}
+		parts, pad := make([]int, n), make([]int, n)
+		for i := range parts {
+			parts[i] = rng.IntN(nParts)
+			switch rng.IntN(6) {
+			case 0:
+				pad[i] = rng.IntN(400) // oversized row
+			case 1:
+				pad[i] = rng.IntN(30)
+			}
+		}
+		bad := -1
+		if rng.IntN(12) == 0 {
+			bad = rng.IntN(n)
+		}
+		r.ingest(ctx, []string{"buf", "nil", "drain"}[rng.IntN(3)], func(id int) *pBatch { return r.makeBatch(id, parts, pad, bad, o.Partitioned) })
+		if rng.IntN(10) == 0 {
+			r.flush(ctx)
+		}
+	}
+	if rng.IntN(2) == 0 {
+		r.flush(ctx)
+	}
+	r.stopWithDeadline(20 * time.Second)
+	res := r.finish(3*time.Second, true)
+	fl, nofl := 0, 0
+	for _, it := range res.items {
+		switch it.term {
+		case "EL (LActorBuffer true)":
+			fl++
+		case "EL (LActorBuffer false)":
+			nofl++
+		}
+	}
+	p.c.dist("limit_flushes", bucket(fl))
+	p.emit(r, res, pEvalOpts{props: []string{"C10"}, nontrivial: fl > 0 && nofl > 0, kind: "limits",
+		extra: map[string]any{"limit_flushes": fl, "buffered_without_flush": nofl, "partitions": nParts}})
+}
+
+// time-triggered flush: no Flush, no Stop until the ack arrived
+func pTimeFlush(p *pipeCtx) {
+	n := p.c.pick(3, 25)
+	for i := 0; i < n; i++ {
+		o := defaultOpts()
+		o.MaxTime = time.Duration(20+p.c.intn(60)) * time.Millisecond
+		r := newPRun(p.c, fmt.Sprintf("time-%d", i), o)
+		r.start()
+		t0 := time.Now()
+		id, _ := r.ingest(context.Background(), "drain", simpleBatch(r, 2))
+		if i%2 == 1 {
+			time.Sleep(time.Duration(p.c.intn(15)) * time.Millisecond)
+			r.ingest(context.Background(), "drain", simpleBatch(r, 1))
+		}
+		answered := waitFor(func() bool { r.mu.Lock(); defer r.mu.Unlock(); return len(r.recvd[id]) > 0 }, 5*time.Second)
+		lat := time.Since(t0)
+		desc := map[string]any{"max_buffered_time_ms": o.MaxTime.Milliseconds(), "latency_ms": lat.Milliseconds()}
+		if !answered {
+			p.c.violation("", fmt.Sprintf("run %s: batch not answered %v after ingest with MaxBufferedTime %v, responsive stores, no Flush/Stop", r.name, lat, o.MaxTime), desc)
+		} else if p.c.thorough() && lat > o.MaxTime+100*time.Millisecond+400*time.Millisecond {
+			p.c.violation("", fmt.Sprintf("run %s: ack latency %v exceeds MaxBufferedTime %v + tick + allowance", r.name, lat, o.MaxTime), desc)
+		}
+		r.stopWithDeadline(20 * time.Second)
+		res := r.finish(3*time.Second, true)
+		p.emit(r, res, pEvalOpts{props: []string{"C10"}, nontrivial: true, kind: "time-flush", extra: desc})
+	}
+}
